@@ -10,7 +10,10 @@ use crate::{
     compiler::{Card, CardBody, ForEach, Function, Module},
     procedures::ExecutionErrorPayload,
     value::Value,
-    vm::{runtime::cao_lang_object::CaoLangObjectBody, Vm},
+    vm::{
+        runtime::cao_lang_object::{CaoLangObjectBody, ObjectGcGuard},
+        Vm,
+    },
 };
 
 /// Given a table and a callback that returns a bool create a new table whith the items that return
@@ -177,6 +180,8 @@ pub fn native_minmax<T, const LESS: bool>(
                     vm.stack_push(*first.1)?;
                     vm.stack_push(*first.0)?;
                     let mut max_key = vm.run_function(key_fn)?;
+                    // the best key so far is only referenced from here: keep it alive
+                    let mut _max_key_guard = guard_value(max_key);
                     let mut i = 0;
 
                     for (j, (k, value)) in t.iter().enumerate().skip(1) {
@@ -186,6 +191,7 @@ pub fn native_minmax<T, const LESS: bool>(
                         if if LESS { key < max_key } else { key > max_key } {
                             i = j;
                             max_key = key;
+                            _max_key_guard = guard_value(max_key);
                         }
                     }
                     let k = t.nth_key(i);
@@ -207,6 +213,14 @@ pub fn native_minmax<T, const LESS: bool>(
     }
 }
 
+/// Protects an object value from the collector for as long as the guard lives
+fn guard_value(value: Value) -> Option<ObjectGcGuard> {
+    match value {
+        Value::Object(o) => Some(ObjectGcGuard::new(o)),
+        _ => None,
+    }
+}
+
 pub fn native_sorted<T>(
     vm: &mut Vm<T>,
     iterable: Value,
@@ -220,10 +234,13 @@ pub fn native_sorted<T>(
                     // TODO:
                     // sort in place?
                     let mut result = Vec::with_capacity(t.len());
+                    // the computed keys are only referenced from here: keep them alive
+                    let mut _key_guards = Vec::with_capacity(t.len());
                     for (k, v) in t.iter() {
                         vm.stack_push(*v)?;
                         vm.stack_push(*k)?;
                         let key = vm.run_function(key_fn)?;
+                        _key_guards.push(guard_value(key));
                         result.push((key, k, v));
                     }
                     result.sort_by(|(a, _, _), (b, _, _)| {
